@@ -488,6 +488,10 @@ static void DecodeRES(Word Index) {
     }
 
     if (Index) {
+        if (SetMaxCodeLen(Size * 2)) {
+            WrStrErrorPos(ErrNum_CodeOverflow, &ArgStr[1]);
+            return;
+        }
         for (i = 0; i < Size; i++) {
             WAsmCode[i] = 0;
         }
